@@ -269,6 +269,56 @@ def translate_user_nbrs(src_root):
             "def userNbrsT (vectors : List (List Q)) (ratings : List Q) (uidx : Option Nat) (min_sim : Q) (nusers : Nat) : List Nat × List Q :=\n" + text + "\n",
             "\n".join(ast.get_source_segment(src, b) for b in seg_stmts), rel, t.notes)
 
+def translate_item_scores(mod, src):
+    """knn/item.py `ItemKNNScorer.__call__`: how the score of one target item is computed from its column of the (rated × target) similarity
+    sub-matrix — the dispatch on the neighbourhood size, the sparse fast path, the dense `topk` slow path"""
+    cls = next((c for c in mod.body if isinstance(c, ast.ClassDef) and c.name == "ItemKNNScorer"), None)
+    fn = next((f for f in (cls.body if cls else []) if isinstance(f, ast.FunctionDef) and f.name == "__call__"), None)
+    if fn is None: raise Unsupported("ItemKNNScorer.__call__ not found")
+    U = ast.unparse
+    flat = [U(n) for n in ast.walk(fn) if isinstance(n, (ast.Assign, ast.AugAssign))]
+    def once(t, alts=()):
+        forms = (t,) + tuple(alts)
+        if sum(flat.count(f) for f in forms) != 1: raise Unsupported(f"ItemKNNScorer.__call__: `{t}` (expected once)")
+    for t in ("sizes = np.diff(model.indptr)", "scorable = sizes >= self.config.min_nbrs", "fast = sizes <= self.config.max_nbrs", "ti_fast_mask[ti_mask] = scorable & fast",
+              "fast_mod = model[:, scorable & fast]", "slow_mat = model.T[~fast, :]", "ti_slow_mask[ti_mask] = ~fast", "slow_mat = torch.from_numpy(slow_mat.toarray())",
+              "(slow_trimmed, slow_inds) = torch.topk(slow_mat, self.config.max_nbrs)", "scores = np.full(len(items), np.nan, dtype=np.float32)",
+              "model = model[ri_valid_nums, :]", "model = model[:, ti_valid_nums]", "model = model.tocsc()"):
+        once(t, ("slow_trimmed, slow_inds = torch.topk(slow_mat, self.config.max_nbrs)",) if t.startswith("(slow_trimmed") else ())
+    ifs = [n for n in ast.walk(fn) if isinstance(n, ast.If) and U(n.test) == "self.config.explicit"]
+    bodies = [([U(x) for x in n.body if not isinstance(x, ast.Assert)], [U(x) for x in n.orelse if not isinstance(x, ast.Assert)]) for n in ifs]
+    fastb = (["scores[ti_fast_mask] = ri_vals @ fast_mod", "scores[ti_fast_mask] /= fast_mod.sum(axis=0)"], ["scores[ti_fast_mask] = fast_mod.sum(axis=0)"])
+    slowb = (["svals = torch.from_numpy(ri_vals)[slow_inds]", "scores[ti_slow_mask] = torch.sum(slow_trimmed * svals, axis=1).numpy()", "scores[ti_slow_mask] /= torch.sum(slow_trimmed, axis=1).numpy()"],
+             ["scores[ti_slow_mask] = torch.sum(slow_trimmed, axis=1).numpy()"])
+    if bodies.count(fastb) != 1: raise Unsupported("ItemKNNScorer.__call__: the fast path (`ri_vals @ fast_mod` over `fast_mod.sum(axis=0)`, or the sum alone)")
+    if bodies.count(slowb) != 1: raise Unsupported("ItemKNNScorer.__call__: the slow path (the `topk` similarities times their ratings over the sum of the `topk` similarities, or that sum alone)")
+    # nothing else writes the scores of the fast / slow targets
+    writes = [t for t in flat if t.startswith(("scores[ti_fast_mask]", "scores[ti_slow_mask]"))]
+    if len(writes) != 6: raise Unsupported("ItemKNNScorer.__call__: the fast / slow scores are written elsewhere too")
+    slow_if = [n for n in ast.walk(fn) if isinstance(n, ast.If) and U(n.test) == "n_slow"]
+    if len(slow_if) != 1 or not any(i in list(ast.walk(slow_if[0])) for i in ifs if ([U(x) for x in i.body if not isinstance(x, ast.Assert)], [U(x) for x in i.orelse if not isinstance(x, ast.Assert)]) == slowb):
+        raise Unsupported("ItemKNNScorer.__call__: the slow path runs under `if n_slow:`")
+    text = """/-- `ItemKNNScorer.__call__`, for one target item: `col` is its column of the (rated × target) similarity sub-matrix (0 where the
+    rated item is not among the target's stored neighbours), `size` the number of stored entries of that column, `ri_vals` the
+    (mean-centred) ratings of the rated items; `none` is the `NaN` the score array was filled with, or a division 0/0 -/
+def itemScoreT (explicit : Bool) (min_nbrs max_nbrs : Nat) (ri_vals col : List Q) (size : Nat) : Option Q :=
+  let scorable := decide (min_nbrs ≤ size)
+  let fast := decide (size ≤ max_nbrs)
+  if scorable && fast then
+    let fast_mod := col
+    if explicit then divQ (dot ri_vals fast_mod) (sumQ fast_mod) else some (sumQ fast_mod)
+  else if !fast then
+    let slow_mat := col
+    let slow_inds := topkIdx slow_mat max_nbrs
+    let slow_trimmed := takeIdx slow_mat 0 slow_inds
+    if explicit then
+      let svals := takeIdx ri_vals 0 slow_inds
+      divQ (sumQ (List.zipWith (· * ·) slow_trimmed svals)) (sumQ slow_trimmed)
+    else some (sumQ slow_trimmed)
+  else none
+"""
+    return text, ast.get_source_segment(src, fn)
+
 def translate(src_root):
     rel = "knn/item.py"; src = open(os.path.join(src_root, rel)).read(); mod = ast.parse(src); mod._path = os.path.join(src_root, rel)
     fn = find_fn(mod, "_sim_row")
@@ -287,15 +337,16 @@ def translate(src_root):
     body = t.block(fn.body, env, 1)
     btext, bseg = translate_blocks(mod)
     utext, useg, urel, unotes = translate_user_nbrs(src_root)
-    seg = ast.get_source_segment(src, fn) + "\n" + bseg + "\n" + useg
+    itext, iseg = translate_item_scores(mod, src)
+    seg = ast.get_source_segment(src, fn) + "\n" + bseg + "\n" + useg + "\n" + iseg
     head = ("import LK.Model.TorchOps\n/-! GENERATED by translate/py2lean_sim.py on every run of `./check C09`; do not edit.\n"
-            f"* `simRowT`, `simBlockT`, `simBlocksT` ← {rel} _sim_row, _sim_block, _sim_blocks; `userNbrsT` ← {urel} UserKNNScorer.__call__ (neighbour selection), source sha256/64 {hashlib.sha256(seg.encode()).hexdigest()[:16]}\n"
+            f"* `simRowT`, `simBlockT`, `simBlocksT` ← {rel} _sim_row, _sim_block, _sim_blocks; `userNbrsT` ← {urel} UserKNNScorer.__call__ (neighbour selection); `itemScoreT` ← {rel} ItemKNNScorer.__call__ (per-target scoring), source sha256/64 {hashlib.sha256(seg.encode()).hexdigest()[:16]}\n"
             "    - `nitems` is the number of rows of `matrix`; `torch.jit.fork(f, …)` / `.wait()` is the call `f(…)` (results are consumed in submission order)\n"
             "    - `rowNnz` stands for `len(row.indices())`, the number of stored entries of the sparse row\n"
             "    - in `userNbrsT`, `vectors` is `self.user_vectors_`, `nusers` is `len(self.users_)`, `min_sim` is `self.config.min_sim`\n"
             + "".join(f"    - {n}\n" for n in dict.fromkeys(t.notes + unotes)) + "-/\nset_option linter.unusedVariables false\nnamespace LK.Gen.SimC09\nopen LK.TorchOps LK.ArrayOps LK.KNN\n\n")
     return head + ("def simRowT (item : Nat) (matrix : List (List Q)) (row : List Q) (rowNnz : Nat) (min_sim : Q) (max_nbrs : Option Nat) : List Nat × List Q :=\n"
-                   f"{body}\n\n{btext}\n{utext}\nend LK.Gen.SimC09\n")
+                   f"{body}\n\n{btext}\n{utext}\n{itext}\nend LK.Gen.SimC09\n")
 
 if __name__ == "__main__":
     print(translate(sys.argv[1] if len(sys.argv) > 1 else "/repo/src/lenskit"))
